@@ -24,7 +24,7 @@ for prop in props:
     out.append('')
 inv = '\n'.join(out)
 
-rows = ['| seeded change | what it breaks (one line) | needs | caught by (quick tier) | baseline before the round's extensions |', '|---|---|---|---|---|']
+rows = ['| seeded change | what it breaks (one line) | needs | caught by (quick tier) | baseline (checks as they were before that round) |', '|---|---|---|---|---|']
 for d in sorted(glob.glob(os.path.join(VERIF, 'seeded', 'C*-*m*'))):
     m = json.load(open(os.path.join(d, 'meta.json')))
     what = (m.get('what_changed') or '').split('. ')[0][:170].replace('|', '/').replace('\n', ' ')
